@@ -169,7 +169,7 @@ def run_case(case, bus, ex):
             bus.outside("h1_decomposition", "even N with Nyquist content")
         # ---------------- correlation
         cval = float(M.correlation(J(u), J(v)))
-        bad = rel(cval, MR.correlation(u, v)) if abs(MR.correlation(u, v)) > 1e-6 else abs(cval - MR.correlation(u, v))
+        bad = abs(cval - MR.correlation(u, v))          # a correlation is O(1)-bounded: absolute accuracy is what rounding allows (near-orthogonal pairs have no relative accuracy)
         bad = max(bad, 0.0 if -1 - 1e-12 <= cval <= 1 + 1e-12 else 1.0)
         bad = max(bad, abs(float(M.correlation(J(u), J(abs(al) * u))) - 1.0), abs(float(M.correlation(J(u), J(-abs(al) * u))) + 1.0))
         bus.judge("correlation", bad, 1e-12, sigb, sample=dict(info, value=cval), witness=dict(info, value=cval, ref=MR.correlation(u, v)))
